@@ -22,6 +22,7 @@ from mirsym import loader, validate                      # noqa: E402
 from mirsym.execu import ExecError, Program, Executor     # noqa: E402
 from mirsym.values import *                               # noqa: E402,F401
 from mirsym import builtins as _b                         # noqa: E402
+from mirsym import deku_bi, fmt_bi, float_bi              # noqa: E402,F401
 
 SEED = int(os.environ.get('VERIF_SEED', '0') or 0)
 NPROC = int(os.environ.get('VERIF_JOBS', '16'))
@@ -359,6 +360,7 @@ def finish(prop, tier, t0, results, coverage, assumptions, level='model_checking
         seen_roles.setdefault(v['role'], []).append(v)
     n_viol = 0
     lines = []
+    known_seen = {}
     for role, vs in sorted(seen_roles.items()):
         v = vs[0]
         ok = None
@@ -376,7 +378,10 @@ def finish(prop, tier, t0, results, coverage, assumptions, level='model_checking
                                  'job': v.get('job')})
             continue
         if kf:
-            lines.append('KNOWN-FINDING: property=%s %s [%s] witness=%s' % (prop, kf[0].get('description', role), role, v.get('witness')))
+            kid = kf[0].get('id', role)
+            if kid not in known_seen:
+                known_seen[kid] = [kf[0], role, v.get('witness'), 0]
+            known_seen[kid][3] += len(vs)
             continue
         n_viol += 1
         path = os.path.join(OUT, prop, '%d.json' % n_viol)
@@ -384,6 +389,9 @@ def finish(prop, tier, t0, results, coverage, assumptions, level='model_checking
         lines.append('VIOLATION property=%s replay=%s' % (prop, path))
         lines.append('  role=%s witness=%s %s' % (role, v.get('witness'), v.get('detail', '')))
         status = 1
+    for kid, (k, role, wit, cnt) in sorted(known_seen.items()):
+        print('KNOWN-FINDING: property=%s %s: %s (e.g. role %s, witness %s; %d counterexamples, all inside the recorded input class)' % (
+            prop, kid, k.get('description', ''), role, wit, cnt))
     for ln in lines:
         print(ln)
     if inconclusive:
@@ -395,6 +403,7 @@ def finish(prop, tier, t0, results, coverage, assumptions, level='model_checking
             status = 2
     cov = dict(coverage)
     cov.setdefault('violations_by_role', {k: len(v) for k, v in seen_roles.items()})
+    cov['known_findings_seen'] = {k: v[3] for k, v in known_seen.items()}
     ev = {
         'property_id': prop,
         'tier': tier,
